@@ -431,6 +431,7 @@ func run(t *rapid.T, test string, sc scenario) {
 				}
 			}
 		case "logfmt":
+			exp.QuotingNotJudged = true // quoting is C05's clause
 			if p := vlib.CheckLogfmtRecord(payload, exp, false); p != nil {
 				vlib.Discrep(t, sig, "C07 %s: %s\nexpected merge: [%s]", desc, p.Msg, vlib.Describe(vlib.Normalize(sources)))
 			}
